@@ -9,7 +9,8 @@ def check(tier, seed):
     from .implicit_props import specs_direct
     # implicit mode: the laws hold iff the implicit solver meets its contract for explicit levels listed in any order (per-level Green's functions)
     d.add_units(fold_canaries(run_units(specs_masks(tier) + specs_solver(tier) + specs_evals(tier) + specs_wiring(tier) + specs_direct(tier))))
-    d.add_lean(NAT_LEAN + NAT_LEAN_NH + ["PV.shift_cov", "PV.scale_cov", "PV.C02_adjoint", "PV.Laws.conj_law", "PV.Laws.coeff_hom_law", "PV.Laws.perm_law", "PV.Laws.unitary_law"])
+    d.add_lean(NAT_LEAN + NAT_LEAN_NH + ["PV.shift_cov", "PV.scale_cov", "PV.C02_adjoint", "PV.Laws.conj_law", "PV.Laws.coeff_hom_law", "PV.Laws.perm_law", "PV.Laws.unitary_law",
+                           "PV.DirectSum.prodBlocks", "PV.DirectSum.prodUnperturbed", "PV.DirectSum.direct_sum_law"])
     d.assumptions += [NAT_NOTE,
                       INSTANCE_NOTE + "conjugation by a block-permutation / state-permutation matrix, by a unitary acting inside levels of H_0 that the kept pattern treats "
                       "as a whole, entry-wise complex conjugation, and for direct sums the projections of the product algebra M x M' together with its block-diagonal embedding; for these the kept/eliminated split is preserved because "
@@ -19,7 +20,7 @@ def check(tier, seed):
                       "permutation of basis states and relabelling of blocks: fully mechanised (PV.Laws.perm_law: transporting the entry classification and the Hamiltonian along a bijection of the basis "
                       "states transports every order of the outputs); change of basis by a unitary compatible with the masks - a rotation inside degenerate levels - : PV.Laws.unitary_law (the "
                       "compatibility of W with the kept / eliminated pattern is its hypothesis); all three are instances of PV.Laws.coeff_hom_law (any star ring homomorphism of the coefficient "
-                      "algebras that respects the split); direct sums: through the product algebra M x M' - the projection onto a factor and the block-diagonal embedding into the big matrix algebra are both such homomorphisms (this instance is not spelled out in Lean; bounded battery)",
+                      "algebras that respects the split); direct sums: PV.DirectSum.direct_sum_law - over the product algebra M x M' with component-wise block structure, unperturbed Hamiltonian and solver, every order of U, H_tilde, U^dagger for a Hamiltonian (H_A, H_B) is the pair of the corresponding orders for H_A and H_B (both projections are instances of coeff_hom_law); that the block-diagonal embedding of M x M' into the matrix algebra of the direct sum space is a star ring monomorphism compatible with the masks (true entry-wise: products, adjoints and masks of block-diagonal matrices are block-diagonal and computed block by block) is not mechanised; ",
                       "shift: PV.shift_cov with z = c * identity (central, kept); scaling: PV.scale_cov (any non-zero rational factor; the code's thresholds `atol` are "
                       "absolute, so the statement concerns inputs whose kept pattern is unchanged by the scaling - the property's threshold clause)"]
     d.not_decided += ["threshold behaviour (absolute atol, relative 1e-5 of np.isclose) under scaling and shifts: floating point (A-FP); bounded battery only",
